@@ -44,6 +44,11 @@ RULE = ('random API-built designs from gen_designs without nand (15 primitive op
         'toplevel, tb ...) under every add_reset option: either PyrtlError or text that passes all checks.  '
         'Translator tie: the statement tables of the emitter model are regenerated from the source on every run '
         '(Gen/C05Emit.v) and proved equal to the tables emitted_ok is built from.  '
+        'Value kinds: every testbench case gives the simulator its inputs / register_value_map / memory_value_map '
+        'as mixed Integral kinds (bool, int subclass with non-numeric str(), IntEnum).  Process history: designs with '
+        'wires named after Verilog-only keywords, Python-only keywords, keywords of both, names legal in both / '
+        'neither are first run through the OTHER name-sanitising consumers (FastSimulation, print_vcd, '
+        'output_to_verilog, output_verilog_testbench; each first in some cases) and only then exported.  '
         'Sanitizer: per design the Coq sanitizer model (parameters regenerated from the source) is evaluated on '
         'the wire names and compared with the identifiers read off the emitted text.  '
         'Targeted: every IEEE 1364-2001 keyword as a wire name; sanitizer-prefix, mem_<id> and '
@@ -249,6 +254,38 @@ def net_order(block, mod, rev):
                     break
     out_w += sorted(wnets, key=str)
     return comb + out_r + out_w
+
+
+class TaggedInt(int):
+    """an int subclass whose str()/repr() is not a number (like enum members, numpy-free)"""
+    def __str__(self):
+        return 'TaggedInt<%d>' % int(self)
+    __repr__ = __str__
+
+
+def as_enum(v):
+    import enum
+    return enum.IntEnum('Lvl', {'V': v}).V
+
+
+def retype(rng, v):
+    """the same number as another numbers.Integral kind, wherever an int is legal"""
+    r = rng.random()
+    if r < 0.35:
+        return v
+    if v in (0, 1) and r < 0.75:
+        return bool(v)
+    return TaggedInt(v) if r < 0.9 else as_enum(v)
+
+
+def retype_stimulus(rng, regmap, memmap, inputs):
+    return ({r: retype(rng, v) for r, v in regmap.items()},
+            {m: {a: retype(rng, v) for a, v in c.items()} for m, c in memmap.items()},
+            [{k: retype(rng, v) for k, v in step.items()} for step in inputs])
+
+
+def plain(x):
+    return {k: int(v) for k, v in x.items()}
 
 
 def simulate(cls, d, regmap, memmap, inputs, dflt):
@@ -473,19 +510,86 @@ def own_name_design(ctx, rng, k):
     return d, done
 
 
+def name_classes():
+    import keyword
+    vk, pk = set(vr.KEYWORDS), set(keyword.kwlist)
+    ident = lambda w: re.match(r'[A-Za-z_][A-Za-z0-9_]*$', w) is not None
+    return {'verilog-keyword-only': sorted(w for w in vk - pk if ident(w)) + ['clk', 'tb_iter', 'block', 'mem_0'],
+            'python-keyword-only': sorted(w for w in pk - vk if ident(w)),
+            'keyword-in-both': sorted(vk & pk),
+            'legal-in-both': ['plain_name', 'Q', 'x1', '_u'],
+            'legal-in-neither': ['a b', '9x', 'p-q']}
+
+
+CONSUMERS = ['fast', 'vcd', 'verilog', 'testbench']
+
+
+def run_consumers(ctx, d, order, memmap, inputs):
+    """the other name-sanitising consumers of the same design, in the given order, BEFORE the exports under test"""
+    block = d.block
+    tracer = None
+    for c in order:
+        try:
+            with contextlib.redirect_stdout(io.StringIO()):
+                if c == 'fast':
+                    simulate(pyrtl.FastSimulation, d, {}, memmap, inputs, 0)
+                elif c == 'verilog':
+                    export(block, False)
+                else:
+                    if tracer is None:
+                        _, tracer = simulate(pyrtl.Simulation, d, {}, memmap, inputs, 0)
+                    if c == 'vcd':
+                        tracer.print_vcd(io.StringIO())
+                    else:
+                        export_tb(block, tracer, False)
+            ctx.count('process_history', c + ':ran')
+        except (pyrtl.PyrtlError, pyrtl.PyrtlInternalError) as e:
+            ctx.count('process_history', '%s:rejected' % c)
+        except Exception as e:
+            report_once(ctx, 'consumer-crash:%s:%s' % (c, type(e).__name__), '%s raised %s: %s on a sane design' % (
+                c, type(e).__name__, str(e)[:200]), design_replay(ctx, 'p', d, {'consumer': c}))
+
+
+def process_history_design(ctx, rng, k):
+    d = gen_designs.make_design(rng, wide_prob=0.05, n_ops=rng.randint(4, 9), ops_subset=make_case.ops)
+    cands = sorted((w for w in d.block.wirevector_set if not isinstance(w, pyrtl.Const)), key=lambda w: w.name)
+    rng.shuffle(cands)
+    done = []
+    for cls, pool in sorted(name_classes().items()):
+        for _ in range(2 if cls.endswith('only') else 1):
+            if not cands:
+                break
+            w = cands.pop()
+            nm = rng.choice([n for n in pool if n not in [x.split('=')[1] for x in done]] or pool)
+            if isinstance(w, (pyrtl.Input, pyrtl.Output)) and nm.startswith('tmp'):
+                continue
+            w.name = nm
+            done.append('%s=%s' % (cls, nm))
+    order = CONSUMERS[k % 4:] + CONSUMERS[:k % 4]
+    if k >= 4:
+        order = order[:1] + rng.sample(order[1:], rng.randint(0, 3))
+    return d, done, order
+
+
 def make_variant(ctx, i):
     """('d', k): a derived block (pass / copy);  ('n', k): a design whose memories all carry ONE name (legal:
     memories are told apart by id) and start from different contents;  ('c', k): wide constants in every
     position;  ('r', k): user wires named like the identifiers the emitted texts declare themselves"""
     kind, k = i
-    if kind in 'cr':
+    if kind in 'crp':
         rng = ctx.sub_rng('variant', i)
+        order = None
         if kind == 'c':
             d, note = wide_const_design(rng), 'wide constants'
-        else:
+        elif kind == 'r':
             d, done = own_name_design(ctx, rng, k)
             note = 'own names: ' + ', '.join(done)
+        else:
+            d, done, order = process_history_design(ctx, rng, k)
+            note = 'earlier in this process, on this design: %s; names: %s' % (' then '.join(order), ', '.join(done))
         regmap, memmap, inputs = gen_designs.make_stimulus(rng, d, rng.randint(2, 4))
+        if order:
+            run_consumers(ctx, d, order, memmap, inputs)
         return d, note, regmap, memmap, inputs
     for attempt in range(60):
         rng = ctx.sub_rng('variant', i, attempt)
@@ -579,7 +683,7 @@ def history_prefix(ctx, i, d, memmap, inputs):
     return same
 
 
-def module_cases(ctx, n, n_hist, n_derived=0, n_samename=0, n_wide=0, n_own=0):
+def module_cases(ctx, n, n_hist, n_derived=0, n_samename=0, n_wide=0, n_own=0, n_proc=0):
     """n fresh designs exported once; n_hist designs with a history: exported (module + testbench, twice,
     identical text required), EXTENDED IN PLACE, and only then put through the same tie + search; n_derived
     blocks produced by copy_block / optimize / synthesize; n_samename designs whose memories share a name"""
@@ -588,10 +692,11 @@ def module_cases(ctx, n, n_hist, n_derived=0, n_samename=0, n_wide=0, n_own=0):
     tb_jobs = []
     plan = [(i, False) for i in range(n)] + [(('h', k), True) for k in range(n_hist)] + \
            [(('d', k), False) for k in range(n_derived)] + [(('n', k), False) for k in range(n_samename)] + \
-           [(('c', k), False) for k in range(n_wide)] + [(('r', k), False) for k in range(n_own)]
+           [(('c', k), False) for k in range(n_wide)] + [(('r', k), False) for k in range(n_own)] + \
+           [(('p', k), False) for k in range(n_proc)]
     for i, hist in plan:
         variant = ''
-        if isinstance(i, tuple) and i[0] in 'dncr':
+        if isinstance(i, tuple) and i[0] in 'dncrp':
             try:
                 made = make_variant(ctx, i)
             except (pyrtl.PyrtlError, pyrtl.PyrtlInternalError) as e:
@@ -603,7 +708,7 @@ def module_cases(ctx, n, n_hist, n_derived=0, n_samename=0, n_wide=0, n_own=0):
             d, variant, regmap, memmap, inputs = made
             renamed = []
             ctx.count('variants', variant if i[0] == 'd' else {'n': 'same-name-memories', 'c': 'wide-constants',
-                                                               'r': 'own-names'}[i[0]])
+                                                               'r': 'own-names', 'p': 'process-history'}[i[0]])
         else:
             d, renamed, regmap, memmap, inputs = make_case(ctx, i)
         history = []
@@ -838,11 +943,19 @@ def testbench_cases(ctx, jobs):
                 continue
             dflt = 0 if (sname == 'compiled' or rng.random() < 0.7) else 1
             add_reset, _, mname = MODES[rng.randrange(3)]
+            # the stimulus reaches the simulator as mixed Integral kinds (bool, int subclass, IntEnum);
+            # the reference side (Coq) gets the same numbers as plain ints
+            t_regmap, t_memmap, t_inputs = retype_stimulus(rng, regmap, memmap, inputs)
             try:
-                sim, tracer = simulate(cls, d, regmap, memmap, inputs, dflt)
+                sim, tracer = simulate(cls, d, t_regmap, t_memmap, t_inputs, dflt)
+                ctx.count('value_kinds', 'typed-stimulus-accepted:' + sname)
             except Exception as e:
                 ctx.count('testbench', 'simulator-error:%s:%s' % (sname, type(e).__name__))
-                continue
+                try:
+                    sim, tracer = simulate(cls, d, regmap, memmap, inputs, dflt)
+                except Exception as e2:
+                    ctx.count('testbench', 'simulator-error-plain:%s:%s' % (sname, type(e2).__name__))
+                    continue
             rep = design_replay(ctx, i, d, {
                 'simulator': sname, 'add_reset': add_reset, 'default_value': dflt,
                 'register_value_map': {short(r.name): v for r, v in regmap.items()},
@@ -864,7 +977,7 @@ def testbench_cases(ctx, jobs):
                 report_once(ctx, 'testbench:unreadable', 'testbench text outside the subset / illegal: %s' % e,
                             dict(rep, text=text[:2000]))
                 continue
-            traced = [{nm: tracer.trace[nm][t] for nm in inputs[0]} for t in range(len(inputs))]
+            traced = [plain({nm: tracer.trace[nm][t] for nm in inputs[0]}) for t in range(len(inputs))]
             exprs.append('tb_case %s %d %s %s %s %s' % (dump.coq(), dflt, dump.regmap(regmap),
                                                        dump.memmap(memmap), dump.inputs(traced), term))
             # what the simulation started from (for the message only; the verdict is Coq's)
@@ -992,7 +1105,7 @@ def collide(ctx, sig, what):
 
 def run(ctx):
     _reported.clear()
-    sizes = (28, 6, 12, 6, 8, 10) if ctx.tier == "quick" else (520, 40, 80, 30, 40, 40)
+    sizes = (24, 6, 12, 6, 8, 10, 8) if ctx.tier == "quick" else (500, 40, 80, 30, 40, 40, 40)
     tb_jobs = module_cases(ctx, *sizes)
     testbench_cases(ctx, tb_jobs)
     targeted(ctx)
